@@ -15,6 +15,7 @@ import (
 	"io"
 	"log"
 	"math"
+	"os"
 	"strconv"
 	"strings"
 
@@ -47,6 +48,11 @@ type Case struct {
 	Refs  []uint32 `json:"refs,omitempty"`
 	Ep    int      `json:"ep,omitempty"` // -1: no endpoint bound
 	Acmd  int32    `json:"acmd,omitempty"`
+	// search.go
+	Mut     string `json:"mut,omitempty"`     // op "reply" / "clone": what is done to the REQUEST object after the reply was handed to the endpoint and before the reply is looked at
+	Off     int    `json:"off,omitempty"`     // str / bytes values are handed over as a sub-string / sub-slice starting at an address that is Off mod 16
+	Seed    uint64 `json:"seed,omitempty"`    // op "reuse": seed of the values
+	Windows []int  `json:"windows,omitempty"` // op "reuse": SetBody calls between two observations of ONE packet object
 }
 
 type unsupportedT struct{ X int }
@@ -248,15 +254,15 @@ type fakeEndpoint struct {
 	sent []fatchoy.IPacket
 }
 
-func (e *fakeEndpoint) NodeID() fatchoy.NodeID                { return fatchoy.NodeID(e.id) }
-func (e *fakeEndpoint) SetNodeID(fatchoy.NodeID)              {}
-func (e *fakeEndpoint) RemoteAddr() string                    { return "fake" }
-func (e *fakeEndpoint) SendPacket(p fatchoy.IPacket) error    { e.sent = append(e.sent, p); return nil }
-func (e *fakeEndpoint) Close() error                          { return nil }
-func (e *fakeEndpoint) ForceClose(error)                      {}
-func (e *fakeEndpoint) IsRunning() bool                       { return true }
-func (e *fakeEndpoint) SetUserData(interface{})               {}
-func (e *fakeEndpoint) UserData() interface{}                 { return nil }
+func (e *fakeEndpoint) NodeID() fatchoy.NodeID             { return fatchoy.NodeID(e.id) }
+func (e *fakeEndpoint) SetNodeID(fatchoy.NodeID)           {}
+func (e *fakeEndpoint) RemoteAddr() string                 { return "fake" }
+func (e *fakeEndpoint) SendPacket(p fatchoy.IPacket) error { e.sent = append(e.sent, p); return nil }
+func (e *fakeEndpoint) Close() error                       { return nil }
+func (e *fakeEndpoint) ForceClose(error)                   {}
+func (e *fakeEndpoint) IsRunning() bool                    { return true }
+func (e *fakeEndpoint) SetUserData(interface{})            {}
+func (e *fakeEndpoint) UserData() interface{}              { return nil }
 
 type xorCrypt struct{}
 
@@ -353,7 +359,7 @@ func runCase(c Case) (op, ans string, fails []verdict) {
 	}
 	switch c.Op {
 	case "set", "raw":
-		val, ok := goValue(c.K, c.V)
+		val, ok := goValueOf(c)
 		op = c.Op + " " + kvText(c.K, c.V)
 		if !ok {
 			return op, "bad-op", nil
@@ -392,7 +398,7 @@ func runCase(c Case) (op, ans string, fails []verdict) {
 		return op, ans, fails
 
 	case "geterrno":
-		val, ok := goValue(c.K, c.V)
+		val, ok := goValueOf(c)
 		op = fmt.Sprintf("geterrno cmd=%d flag=%d %s", c.Cmd, c.Flag, kvText(c.K, c.V))
 		if !ok {
 			return op, "bad-op", nil
@@ -407,7 +413,7 @@ func runCase(c Case) (op, ans string, fails []verdict) {
 	case "wire", "wireerr":
 		var p *packet.Packet
 		if c.Op == "wire" {
-			val, ok := goValue(c.K, c.V)
+			val, ok := goValueOf(c)
 			op = fmt.Sprintf("wire codec=%s enc=%s thr=%d cmd=%d flag=%d %s", c.Codec, encName(c.Enc), c.Thr, c.Cmd, c.Flag, kvText(c.K, c.V))
 			if !ok {
 				return op, "bad-op", nil
@@ -686,7 +692,7 @@ func runReply(c Case) (op, ans string, fails []verdict) {
 	var pn string
 	switch c.Rop {
 	case "replywith":
-		v, ok := goValue(c.K, c.V)
+		v, ok := goValueOf(c)
 		op += fmt.Sprintf(" acmd=%d %s", c.Acmd, kvText(c.K, c.V))
 		if !ok {
 			return op, "bad-op", nil
@@ -718,6 +724,9 @@ func runReply(c Case) (op, ans string, fails []verdict) {
 	if len(fe.sent) != 1 {
 		fail("reply-endpoint", "%s handed %d packets to the endpoint the request arrived from", c.Rop, len(fe.sent))
 		return op, fmt.Sprintf("sent=%d", len(fe.sent)), fails
+	}
+	if c.Mut != "" {
+		mutateRequest(c, req) // the reply is queued; the request object is refilled / reused; only then is the reply looked at
 	}
 	out := fe.sent[0]
 	var outRefs []uint32
@@ -767,6 +776,9 @@ func runReply(c Case) (op, ans string, fails []verdict) {
 			fail("reply-command", "Reply(unregistered message) to command %d went out as command %d", c.Cmd, out.Command())
 		}
 	}
+	if c.Mut != "" {
+		aliasWire(c, out, fail)
+	}
 	return op, ans, fails
 }
 
@@ -787,7 +799,9 @@ func bitsOf(k string) int {
 	return 64
 }
 
-func signedKind(k string) bool { return k == "int" || k == "i8" || k == "i16" || k == "i32" || k == "i64" }
+func signedKind(k string) bool {
+	return k == "int" || k == "i8" || k == "i16" || k == "i32" || k == "i64"
+}
 
 // pickBits: extremes, sign boundaries, small magnitudes, varint group boundaries, random.
 func pickBits(r *hxlib.Rand, bits int) uint64 {
@@ -973,10 +987,15 @@ func validUTF8(b []byte) bool { return strings.ToValidUTF8(string(b), "\x00") ==
 
 var modelLines = true
 
+// quiet: no model line for the case (search.go: megabyte bodies, tens of thousands of references).
+var quiet bool
+
 func one(r *hxlib.Run, c Case) {
 	r.Case()
 	op, ans, fails := runCase(c)
-	r.Op(op, ans)
+	if !quiet {
+		r.Op(op, ans)
+	}
 	r.Count("op:" + c.Op)
 	if c.Op == "set" || c.Op == "wire" {
 		r.Count("kind:" + c.K)
@@ -1009,8 +1028,21 @@ func main() {
 	if r.Replay != "" {
 		var c Case
 		r.LoadReplay(&c)
-		one(r, c)
-		r.Sample(c)
+		switch c.Op {
+		case "reuse":
+			runReuse(r, c)
+		case "clone":
+			runClone(r, c)
+		default:
+			one(r, c)
+		}
+		if len(c.V) < 4096 && len(c.Refs) < 64 {
+			r.Sample(c)
+		}
+		return
+	}
+	if os.Getenv("HX_LEGS_ONLY") != "" { // development: the legs of search.go alone
+		legs(r)
 		return
 	}
 	R := r.R
@@ -1213,6 +1245,7 @@ func main() {
 		one(r, Case{Op: "uvarint", V: h})
 		one(r, Case{Op: "varint", V: h})
 	}
+	legs(r) // search.go (after the generators, so that the smallest failing case of a kind is recorded first): cheap legs in every tier, the longer ones from thorough on, the rest with -search only
 }
 
 // randVarintish: byte strings shaped like varints — valid, truncated, over-long, overflowing.
